@@ -40,6 +40,10 @@ def gen(rng, tier):
         for subset in itertools.combinations(["builtin", "local", "global", "extra"], r):
             for depth in (0, 2):
                 cases.append({"role": "arg-none", "defined": list(subset), "depth": depth})
+    # ONE Environment object handed to several calls as env=, each with its own extra_namespace (or none): every
+    # call sees its own extra_namespace only (decided by the oracle; the model's calls have no shared object)
+    for steps in ([5.0, 6.0], [5.0, None], [None, 5.0, None], [5.0, 6.0, 7.0, None], [7.0, 7.0, None, 6.0]):
+        cases.append({"role": "env-object", "defined": [], "depth": 0, "steps": steps})
     return cases
 
 
@@ -56,7 +60,7 @@ def nontrivial(c, mo, obs):
 
 
 def _name(c):
-    return {"arg": "nm", "callee": "nm", "dotted": "mod", "bq": "my nm", "arg-none": "nm", "kwarg": "nm",
+    return {"env-object": "nm", "arg": "nm", "callee": "nm", "dotted": "mod", "bq": "my nm", "arg-none": "nm", "kwarg": "nm",
             "nested": "nm", "dotted2": "mod", "dotted3": "mod", "kwarg-same": "nm", "enc": "Sum", "callee-py": "round"}[c["role"]]
 
 
@@ -82,8 +86,31 @@ def expected(c):
     return ["err", "Key"]
 
 
+def _run_envobject(c):
+    import numpy as np
+    import pandas as pd
+    from formulae import design_matrices
+    from formulae.environment import Environment
+    df = pd.DataFrame({"y": np.arange(5, dtype=float), "x": np.arange(5, dtype=float) + 1})
+
+    def caller():
+        env = Environment.capture(0)
+        out = []
+        for step in c["steps"]:
+            ns = None if step is None else {"nm": (lambda x, _k=step: x * 0 + _k)}
+            try:
+                d = design_matrices("y ~ nm(x)", df, env=env, extra_namespace=ns)
+                out.append(float(np.asarray(d.common["nm(x)"]).reshape(-1)[0]))
+            except KeyError:
+                out.append("Key")
+        return out
+    return caller()
+
+
 def model_cmd(c):
     import core
+    if c["role"] == "env-object":
+        c = {"role": "callee", "defined": [], "depth": 0}   # placeholder: the comparison is skipped
     name = _name(c)
     d = c["defined"]
 
@@ -223,6 +250,11 @@ def _run(c):
 
 
 def impl_obs(c):
+    if c["role"] == "env-object":
+        try:
+            return ["ok", _run_envobject(c)]
+        except Exception as e:  # noqa
+            return ["err", type(e).__name__, str(e)[:60]]
     try:
         return ["ok", str(_run(c))]
     except KeyError:
@@ -234,6 +266,8 @@ def impl_obs(c):
 
 
 def compare(c, mo, obs):
+    if c["role"] == "env-object":
+        return None
     if mo[0] != obs[0]:
         return f"{c}: model {mo} implementation {obs}"
     if mo[0] == "ok" and float(mo[1]) != float(obs[1]):
@@ -245,6 +279,14 @@ def compare(c, mo, obs):
 
 def oracle(c):
     got = impl_obs(c)
+    if c["role"] == "env-object":
+        want = ["Key" if s_ is None else float(s_) for s_ in c["steps"]]
+        if got[0] != "ok":
+            return f"{c}: calls sharing one Environment object raise {got[1:]}"
+        if got[1] != want:
+            return (f"{c}: successive calls with one Environment object as env= and extra_namespace binding nm to "
+                    f"{c['steps']} resolved nm to {got[1]}, each call must see its own extra_namespace only: {want}")
+        return None
     want = expected(c)
     if want[0] == "ok":
         if got[0] != "ok":
